@@ -531,7 +531,207 @@ pub fn scenario(id: u64, seed: u64, thorough: bool, family: &str) -> Vec<Value> 
             run.at(ts + r.range(10, 5000), Act::Browse(ty, r.chance(1, 4)));
         }
     }
+    if std::env::var("VERIF_DEBUG_METRICS").is_ok() {
+        let mut tm = 500;
+        while tm < horizon {
+            run.at(tm, Act::Metrics);
+            tm += 1000;
+        }
+    }
     run.at(horizon, Act::Metrics);
+    run.run_until(horizon + 100);
+    run.sim.finish()
+}
+
+fn mixcase(r: &mut Rng, s: &str) -> String {
+    match r.below(4) {
+        0 => s.to_string(),
+        1 => s.to_uppercase(),
+        2 => s.to_lowercase(),
+        _ => s.chars().enumerate().map(|(i, c)| if i % 2 == 0 { c.to_ascii_uppercase() } else { c.to_ascii_lowercase() }).collect(),
+    }
+}
+
+/// Family `resolve` (C17, C13 resolver side, C19 resolver schedule): hostname
+/// resolution with every letter-case variant on the caller and responder side,
+/// changing address sets, withdrawal by goodbye and by TTL, lost / late
+/// answers, timeouts from 1 ms to minutes, stop, several resolvers at once.
+pub fn scenario_resolve(id: u64, seed: u64, thorough: bool) -> Vec<Value> {
+    let mut r = Rng::new(seed.wrapping_mul(104729).wrapping_add(id));
+    let ifs = topology(&mut r);
+    let links: Vec<Vec<(usize, u32)>> = ifs.iter().map(|i| vec![(0usize, i.index)]).collect();
+    let mut sim = Sim::new(json!({"id": id, "family": "resolve"}), seed ^ id, vec![ifs.clone()], links);
+    let d = sim.spawn(0);
+    let mut run = Runner::new(sim, d, r.fork(2), true);
+    let horizon: u64 = if thorough { 90_000 } else { 40_000 };
+    let hosts = ["Alpha.local.", "beta-Box.local."];
+    let nh = r.range(1, 2) as usize;
+    let ttls: Vec<u32> = if r.chance(2, 3) { vec![1, 2, 5, 10] } else { vec![10, 60, 120] };
+    for (k, h) in hosts.iter().enumerate().take(nh) {
+        let t0 = r.below(2000);
+        let to = match r.below(6) {
+            0 => Some(1u64),
+            1 => Some(r.range(100, 3000)),
+            2 => Some(r.range(3000, 30_000)),
+            _ => None,
+        };
+        let asked = mixcase(&mut r, h);
+        run.at(t0, Act::Resolve(asked.clone(), to));
+        if r.chance(1, 4) {
+            let ts = t0 + r.range(500, horizon);
+            run.at(ts, Act::StopResolve(mixcase(&mut r, h)));
+            if r.chance(1, 2) {
+                run.at(ts + r.range(100, 4000), Act::Resolve(mixcase(&mut r, h), None));
+            }
+        }
+        // the responder for this host
+        let ifc = r.pick(&ifs).clone();
+        let want_v4 = ifc.addrs.iter().any(|(a, _)| a.is_ipv4());
+        let (ip, src) = peer(&ifc, k as u8, want_v4).unwrap();
+        let mut addrs = vec![ip];
+        if let Some((ip2, _)) = peer(&ifc, k as u8 + 60, want_v4) {
+            addrs.push(ip2);
+        }
+        let mut t = r.below(3000);
+        let nev = if thorough { 24 } else { 10 };
+        // most responders spell their name one way; some change the letter case between packets
+        let fixed_case = if r.chance(4, 5) { Some(mixcase(&mut r, h)) } else { None };
+        for _ in 0..nev {
+            let spelled = Name::from_escaped(&fixed_case.clone().unwrap_or_else(|| mixcase(&mut r, h)));
+            let ttl = *r.pick(&ttls);
+            let pick: Vec<IpAddr> = addrs.iter().filter(|_| r.chance(2, 3)).cloned().collect();
+            let mk = |ttl: u32, set: &[IpAddr]| -> Vec<RR> {
+                set.iter().map(|a| RR::new(spelled.clone(), true, ttl, match a {
+                    IpAddr::V4(x) => RData::A(x.octets()),
+                    IpAddr::V6(x) => RData::Aaaa(x.octets()),
+                })).collect()
+            };
+            match r.below(8) {
+                0..=4 => {
+                    if !pick.is_empty() && !r.chance(1, 8) {
+                        run.at(t, Act::Deliver { ifidx: ifc.index, src, msg: wire::response(mk(ttl, &pick)), compress: true });
+                    }
+                }
+                5 => {
+                    if !pick.is_empty() {
+                        run.at(t, Act::Deliver { ifidx: ifc.index, src, msg: wire::response(mk(0, &pick)), compress: true });
+                    }
+                }
+                6 => {
+                    // an address for another host in the same packet, and as additional
+                    let mut m = wire::response(mk(ttl, &addrs[..1]));
+                    m.additionals.push(RR::new(Name::from_labels(&["other", "local"]), true, 120, RData::A([10, 1, 1, 1])));
+                    run.at(t, Act::Deliver { ifidx: ifc.index, src, msg: m, compress: true });
+                }
+                _ => {
+                    // address change: new address with cache-flush
+                    if let IpAddr::V4(x) = addrs[0] {
+                        let o = x.octets();
+                        addrs[0] = v4(o[0], o[1], o[2], o[3].wrapping_add(3));
+                        run.at(t, Act::Deliver { ifidx: ifc.index, src, msg: wire::response(mk(ttl, &addrs[..1])), compress: true });
+                    }
+                }
+            }
+            t += r.range(100, horizon / nev as u64 * 2);
+        }
+    }
+    run.at(horizon, Act::Metrics);
+    run.run_until(horizon + 100);
+    run.sim.finish()
+}
+
+/// Family `flood` (C20): traffic nobody asked for - answers for types nobody
+/// browses, SRV/TXT/address/NSEC without PTR, streams of distinct names (at
+/// most 16 alive at a time), repeated announcements and goodbyes - with
+/// searches started and stopped along the way; get_metrics sampled regularly
+/// and after everything has expired.
+pub fn scenario_flood(id: u64, seed: u64, thorough: bool) -> Vec<Value> {
+    let mut r = Rng::new(seed.wrapping_mul(15485863).wrapping_add(id));
+    let ifs = vec![IfSpec { name: "eth0".into(), index: 2, addrs: vec![(v4(192, 168, 1, 10), 24)], up: true }];
+    let mut sim = Sim::new(json!({"id": id, "family": "flood"}), seed ^ id, vec![ifs.clone()], vec![vec![(0, 2)]]);
+    let d = sim.spawn(0);
+    let mut run = Runner::new(sim, d, r.fork(3), true);
+    run.answer_prob = (0, 1);
+    let horizon: u64 = if thorough { 600_000 } else { 150_000 };
+    let src = sock4(192, 168, 1, 66, 5353);
+    let browse_ty = "_ipp._tcp.local.";
+    let ttl_pool: Vec<u32> = vec![2, 5, 10, 30];
+    let mut t = 100u64;
+    if r.chance(2, 3) {
+        run.at(r.below(3000), Act::Browse(browse_ty.to_string(), false));
+    }
+    let stop_at = r.range(horizon / 3, horizon * 2 / 3);
+    run.at(stop_at, Act::StopBrowse(browse_ty.to_string()));
+    let mut serial = 0u32;
+    while t < horizon * 3 / 4 {
+        serial += 1;
+        let ttl = *r.pick(&ttl_pool);
+        let name = |k: &str, s: u32| Name(vec![format!("{}{}", k, s % 16 + (s / 16) * 100).into_bytes(), b"_ipp".to_vec(), b"_tcp".to_vec(), b"local".to_vec()]);
+        let host = Name(vec![format!("h{}", serial).into_bytes(), b"local".to_vec()]);
+        let m = match r.below(8) {
+            0 => {
+                // a full, browsed-type announcement (needed while the browse is open)
+                let i = name("svc", serial);
+                wire::response(vec![
+                    RR::new(Name::from_escaped(browse_ty), false, ttl, RData::Ptr(i.clone())),
+                    RR::new(i.clone(), true, ttl, RData::Srv { prio: 0, weight: 0, port: 1, target: host.clone() }),
+                    RR::new(i, true, ttl, RData::Txt(vec![0])),
+                    RR::new(host, true, ttl, RData::A([192, 168, 1, (serial % 200) as u8])),
+                ])
+            }
+            1 => {
+                // answers for a type nobody browses
+                let ty = Name::from_labels(&["_nobody", "_udp", "local"]);
+                let i = Name(vec![format!("x{}", serial).into_bytes(), b"_nobody".to_vec(), b"_udp".to_vec(), b"local".to_vec()]);
+                let mut m = wire::response(vec![RR::new(ty, false, ttl, RData::Ptr(i.clone()))]);
+                m.additionals = vec![
+                    RR::new(i.clone(), true, ttl, RData::Srv { prio: 0, weight: 0, port: 2, target: host.clone() }),
+                    RR::new(i, true, ttl, RData::Txt(vec![0])),
+                    RR::new(host, true, ttl, RData::A([10, 0, 0, (serial % 200) as u8])),
+                ];
+                m
+            }
+            2 | 3 => {
+                // SRV / TXT / address without any PTR
+                let i = name("orphan", serial);
+                wire::response(vec![
+                    RR::new(i.clone(), true, ttl, RData::Srv { prio: 0, weight: 0, port: 3, target: host.clone() }),
+                    RR::new(i, true, ttl, RData::Txt(vec![1, b'a'])),
+                    RR::new(host, true, ttl, RData::A([10, 0, 1, (serial % 200) as u8])),
+                ])
+            }
+            4 => {
+                // NSEC (negative response)
+                let i = name("neg", serial);
+                wire::response(vec![RR::new(i.clone(), true, ttl, RData::Nsec { next: i, rest: vec![0, 1, 0x40] })])
+            }
+            5 | 6 => {
+                // the same announcement over and over
+                let i = name("same", 0);
+                let h = Name::from_labels(&["samehost", "local"]);
+                wire::response(vec![
+                    RR::new(Name::from_escaped(browse_ty), false, 30, RData::Ptr(i.clone())),
+                    RR::new(i.clone(), true, 30, RData::Srv { prio: 0, weight: 0, port: 5, target: h.clone() }),
+                    RR::new(i, true, 30, RData::Txt(vec![0])),
+                    RR::new(h, true, 30, RData::A([192, 168, 1, 99])),
+                ])
+            }
+            _ => {
+                // goodbye for something announced earlier
+                let i = name("svc", serial.saturating_sub(3));
+                wire::response(vec![RR::new(Name::from_escaped(browse_ty), false, 0, RData::Ptr(i))])
+            }
+        };
+        run.at(t, Act::Deliver { ifidx: 2, src, msg: m, compress: true });
+        t += r.range(50, 1500);
+        if serial % 25 == 0 {
+            run.at(t, Act::Metrics);
+        }
+    }
+    // long after every TTL has passed, with all searches stopped
+    run.at(horizon - 10, Act::Metrics);
+    run.at(horizon, Act::Metrics);
+    run.max_iters = 40_000;
     run.run_until(horizon + 100);
     run.sim.finish()
 }
